@@ -235,11 +235,11 @@ func orchMain() int {
 			os.Remove(f)
 		}
 	}
+	var unstable []string
 	for _, v := range viols {
 		if seen[v.Sig] {
 			continue
 		}
-		seen[v.Sig] = true
 		rf := ReplayFile{Desc: v.Desc, Thorough: tier == "thorough", Sig: v.Sig, Detail: v.Detail, Trace: v.Trace,
 			Note: fmt.Sprintf("minimised from %d to %d tape values with %d candidates; replay: ./check %s --replay <this file>", v.OrigLen, v.MinLen, v.ShrinkN, prop)}
 		name := fmt.Sprintf("%s-%d-%s.json", prop, v.Desc.Seed, sigSlug(v.Sig))
@@ -247,12 +247,22 @@ func orchMain() int {
 		js, _ := json.MarshalIndent(rf, "", " ")
 		os.WriteFile(path, js, 0644)
 		if !strings.Contains(v.Sig, "/crash/") && !strings.Contains(v.Sig, "/hang/") {
-			sig2, herr := replayOnce(path, scratch)
-			if herr != "" || sig2 != v.Sig {
-				harness = append(harness, fmt.Sprintf("replay of %s in a fresh process gave %q (harness: %s), expected %q", path, sig2, herr, v.Sig))
+			// the file must reproduce its signature in a fresh process
+			ok := false
+			var last string
+			for attempt := 0; attempt < 2 && !ok; attempt++ {
+				sig2, herr := replayOnce(path, scratch)
+				last = fmt.Sprintf("%q (harness: %s)", sig2, herr)
+				ok = herr == "" && sig2 == v.Sig
+			}
+			if !ok {
+				// another worker may hold a stable instance of the same signature
+				unstable = append(unstable, fmt.Sprintf("replay of %s in a fresh process gave %s, expected %q", path, last, v.Sig))
+				os.Remove(path)
 				continue
 			}
 		}
+		seen[v.Sig] = true
 		rep := reported{sig: v.Sig, path: path}
 		for _, k := range known {
 			if k.Property == prop && k.Status == "open" {
@@ -262,6 +272,13 @@ func orchMain() int {
 			}
 		}
 		reports = append(reports, rep)
+	}
+	for _, u := range unstable {
+		fmt.Printf("UNSTABLE-REPLAY: %s\n", short(u, 400))
+	}
+	if len(unstable) > 0 && len(reports) == 0 {
+		// violations were seen but none replays: the simulation is not deterministic here
+		harness = append(harness, unstable...)
 	}
 
 	wall := time.Since(start).Seconds()
